@@ -4,6 +4,8 @@
 //! kind, the slot and the permit count. The real `BatchSemaphore` / `Acquire` code runs on a real
 //! `ExecutionState` with coroutine-less tasks; the acting task is chosen by the harness among the
 //! tasks that are Runnable (a Sleeping/Blocked task cannot execute user code).
+#[cfg(not(kani))]
+use crate::shim as kani;
 use crate::env::*;
 use shuttle_engine::future::batch_semaphore::{Acquire, BatchSemaphore, Fairness, TryAcquireError};
 use shuttle_engine::runtime::execution::ExecutionState;
